@@ -22,12 +22,14 @@ func init() {
 			{Name: "l1-history", Fn: scnL1History("C01", after), Weight: 3},
 			{Name: "l1-history-noisy", Fn: scnL1History("C01", noisy), Weight: 1},
 			{Name: "l1-pid-reuse-unended", Fn: scnL1Special("C01", genUnendedReuseHistory), Weight: 1},
+			{Name: "l1-backlog-next-to-pending", Fn: scnL1Special("C01", genSmallBacklogHistory), Weight: 1},
 			{Name: "l2-read", Fn: scnL2World("C01"), Weight: 2},
 			{Name: "l3-daemon", Fn: scnL3World("C01"), Weight: 1},
 		},
 		Rule: "multi-session histories (1-5 sessions, unique PIDs/session ids, logins placed at every split point, cleanup calls inside the window, fake-clock gaps) " +
 			"at three levels: tracker API (l1), real Read loop with parser/reassembler/tickers (l2), assembled daemon on simulated pipes (l3); " +
 			"l1-pid-reuse-unended: a correlated session whose credential-disposal record never arrives (sshd killed), then a new session opened by the same PID with its own login at every split point, next to pending and bound background sessions, taped map-iteration order; " +
+			"l1-backlog-next-to-pending: one session holds 27-290 events while another session, opened before or shortly after it, waits too; the logins arrive in either order; " +
 			"non-trivial = at least two ssh sessions and at least one login delivered after its LOGIN record; distinct = distinct (history hash, schedule hash)",
 		Quick: 14000, Thorough: 400000,
 	})
@@ -75,7 +77,7 @@ func init() {
 			{Name: "l2-ticker", Fn: scnC16L2, Weight: 1},
 			{Name: "l2-stalled-loop", Fn: scnC16Stall, Weight: 1},
 		},
-		Rule: "l1: histories of arrivals separated by fake-clock sleeps with cleanup calls whose cut-offs lie strictly between arrival instants (and far past / far future); " +
+		Rule: "l1: histories of arrivals separated by fake-clock sleeps with cleanup calls whose cut-offs lie strictly between arrival instants (and far past / far future), keep-alive records of waiting sessions, waiting logins superseded by a later login of the same PID; " +
 			"l2: the real Read loop with its real one-minute ticker, second half arriving after a gap swept over 1..59 s and 121 s..10 min of simulated time (60-120 s generated, not judged); " +
 			"l2-stalled-loop: the Read goroutine is withheld for 35-85 simulated seconds (slow-thread fault) so that ticks are served late, halves 5-54 s apart must still correlate; " +
 			"non-trivial = a cleanup call (or ticker firing) happened between the two halves of a session; distinct = distinct (history hash, schedule hash)",
@@ -151,7 +153,12 @@ func genUnendedReuseHistory(t *simrt.Tape) *History {
 
 // genBacklogHistory: one session accumulates a large number of held events before its login
 // arrives (an sshd log that lags far behind a busy session).
-func genBacklogHistory(t *simrt.Tape) *History {
+func genBacklogHistory(t *simrt.Tape) *History { return genBacklog(t, 7) }
+
+// genSmallBacklogHistory: the same shape with at most a few hundred held events.
+func genSmallBacklogHistory(t *simrt.Tape) *History { return genBacklog(t, 3) }
+
+func genBacklog(t *simrt.Tape, log2Range int) *History {
 	k := NewKaudit()
 	w := &L1World{}
 	pid := 5400 + t.Choose(50, "pid")
@@ -159,24 +166,41 @@ func genBacklogHistory(t *simrt.Tape) *History {
 	a.Login = GenLogin(t, pid, 1)
 	w.Sessions = []*Session{a}
 	var ops []HOp
+	// another session that waits for its login at the same time: opened before the busy one, or
+	// after its first record, or after its first few records
+	otherAt := -1
+	var o *Session
 	if t.Choose(2, "other.pending") == 1 {
-		o := &Session{Ses: "941", PID: pid + 500, UID: 1001, Kind: "ssh"}
+		o = &Session{Ses: "941", PID: pid + 500, UID: 1001, Kind: "ssh"}
 		o.Login = GenLogin(t, o.PID, 2)
-		o.Events = append(o.Events, k.Login(o.Ses, o.PID, o.UID), GenAction(t, k, o.Ses, o.PID, o.UID))
 		w.Sessions = append(w.Sessions, o)
+		otherAt = []int{0, 1, 6}[t.Choose(3, "other.at")]
+	}
+	held := (1 << (5 + t.Choose(log2Range, "held.log2"))) + t.Choose(40, "held.delta") - 5
+	openOther := func() {
+		o.Events = append(o.Events, k.Login(o.Ses, o.PID, o.UID), GenAction(t, k, o.Ses, o.PID, o.UID))
 		ops = append(ops, HOp{Kind: "event", S: 1, E: 0}, HOp{Kind: "event", S: 1, E: 1})
 	}
-	held := (1 << (5 + t.Choose(7, "held.log2"))) + t.Choose(40, "held.delta") - 5
-	a.Events = append(a.Events, k.Login(a.Ses, pid, a.UID))
-	for i := 1; i < held; i++ {
-		a.Events = append(a.Events, GenAction(t, k, a.Ses, pid, a.UID))
+	for i := 0; i < held; i++ {
+		if i == otherAt {
+			openOther()
+		}
+		if i == 0 {
+			a.Events = append(a.Events, k.Login(a.Ses, pid, a.UID))
+		} else {
+			a.Events = append(a.Events, GenAction(t, k, a.Ses, pid, a.UID))
+		}
+		ops = append(ops, HOp{Kind: "event", S: 0, E: i})
 	}
 	afterEnd := t.Choose(2, "login.after.end") == 1
 	if afterEnd {
 		a.Events = append(a.Events, k.UserMsg("CRED_DISP", a.Ses, pid, a.UID, true, 0))
+		ops = append(ops, HOp{Kind: "event", S: 0, E: len(a.Events) - 1})
 	}
-	for i := range a.Events {
-		ops = append(ops, HOp{Kind: "event", S: 0, E: i})
+	// the other session's login may come first
+	otherFirst := o != nil && t.Choose(2, "other.login.first") == 1
+	if otherFirst {
+		ops = append(ops, HOp{Kind: "login", S: 1})
 	}
 	ops = append(ops, HOp{Kind: "login", S: 0})
 	if !afterEnd {
@@ -189,7 +213,7 @@ func genBacklogHistory(t *simrt.Tape) *History {
 			ops = append(ops, HOp{Kind: "event", S: 0, E: i})
 		}
 	}
-	if len(w.Sessions) > 1 {
+	if o != nil && !otherFirst {
 		ops = append(ops, HOp{Kind: "login", S: 1})
 	}
 	return &History{W: w, Ops: ops}
@@ -473,6 +497,7 @@ func scnC16L1(rc *RunCtx) {
 	var cls []cl
 	extra := map[int]int{}
 	horizon := 40
+	var ghosts []*Session
 	for si := 0; si < n; si++ {
 		pid := 6000 + si*11
 		s := &Session{Ses: fmt.Sprint(900 + si), PID: pid, UID: 1000 + si, Kind: "ssh"}
@@ -484,6 +509,15 @@ func scnC16L1(rc *RunCtx) {
 		t1 := 1 + t.Choose(horizon-10, "t1")
 		t2 := t1 + 1 + t.Choose(horizon-t1-2, "gap")
 		loginFirst := t.Choose(2, "loginfirst") == 1
+		if loginFirst && t1 > 1 && t.Choose(4, "superseded") == 3 {
+			// an earlier sshd process with the same PID logged in but never got an audit session;
+			// its login still waits when this one arrives and is superseded by it
+			g := &Session{Ses: fmt.Sprint(990 + si), PID: pid, UID: 1100 + si, Kind: "login-only"}
+			g.Login = GenLogin(t, pid, 50+si)
+			ghosts = append(ghosts, g)
+			tl = append(tl, arrival{t.Choose(t1, "superseded.at"), HOp{Kind: "login", S: n + len(ghosts) - 1}})
+			rc.Sim.Count("c16.superseded_pending_login")
+		}
 		if loginFirst {
 			tl = append(tl, arrival{t1, HOp{Kind: "login", S: si}})
 			tl = append(tl, arrival{t2, HOp{Kind: "event", S: si, E: 0}})
@@ -503,6 +537,7 @@ func scnC16L1(rc *RunCtx) {
 		}
 		tl = append(tl, arrival{horizon + 1, HOp{Kind: "event", S: si, E: 2}})
 	}
+	w.Sessions = append(w.Sessions, ghosts...)
 	nc := t.Choose(4, "ncleanups")
 	for i := 0; i < nc; i++ {
 		at := 1 + t.Choose(horizon, "cat")
@@ -563,7 +598,7 @@ func scnC16L1(rc *RunCtx) {
 		at    int // ms at which the pending half arrived
 		state int
 	}
-	ps := make([]pend, n)
+	ps := make([]pend, len(w.Sessions))
 	nowMs := 0
 	between := false
 	for _, o := range ops {
